@@ -13,12 +13,14 @@ import (
 )
 
 type op struct {
-	Kind  string `json:"kind"` // zero | past | future | sleep
+	Kind  string `json:"kind"` // zero | past | future | sleep | far (centuries ahead) | ancient (centuries ago)
 	DurNs int64  `json:"durNs"`
 }
 
 type scenario struct {
 	Ops       []op `json:"ops"`
+	Ops2      []op `json:"ops2,omitempty"` // a second, concurrent setter
+	Strict    bool `json:"strict,omitempty"` // one setter, 1 ns clock jitter: after every step the system settles and Done must be closed exactly if the last Set has passed
 	Observers int  `json:"observers"`
 	ObsRounds int  `json:"obsRounds"`
 	ObsGapNs  int64 `json:"obsGapNs"`
@@ -53,6 +55,29 @@ func gen(r *harn.Rng, tier string) interface{} {
 			sc.Ops = append(sc.Ops, op{Kind: "sleep", DurNs: d})
 		}
 	}
+	if r.Bool(0.1) {
+		// values a nanosecond counter cannot hold
+		k := "far"
+		if r.Bool(0.5) {
+			k = "ancient"
+		}
+		sc.Ops = append(sc.Ops, op{Kind: k})
+	}
+	switch r.Intn(5) {
+	case 0:
+		for i, n := 0, r.Range(1, 3); i < n; i++ {
+			switch r.Intn(4) {
+			case 0:
+				sc.Ops2 = append(sc.Ops2, op{Kind: "zero"})
+			case 1:
+				sc.Ops2 = append(sc.Ops2, op{Kind: "sleep", DurNs: durs[r.Intn(len(durs))]})
+			default:
+				sc.Ops2 = append(sc.Ops2, op{Kind: "future", DurNs: durs[r.Intn(len(durs))]})
+			}
+		}
+	case 1, 2:
+		sc.Strict = true
+	}
 	sc.Observers = r.Intn(3)
 	sc.ObsRounds = r.Range(1, 4)
 	sc.ObsGapNs = durs[r.Intn(4)]
@@ -76,24 +101,40 @@ func isClosed(ch <-chan struct{}) bool {
 func run(env *simrt.Env, sci interface{}) {
 	sc := sci.(*scenario)
 	d := deadline.New()
-	var sets []setRec
+	var sets []*setRec
+	// possiblyLast: the Sets completed before event `before` that no other Set, begun after they
+	// returned and completed before `before`, has certainly replaced
+	possiblyLast := func(before uint64) (idx []int) {
+		for i, s := range sets {
+			if s.ret == 0 || s.ret >= before {
+				continue
+			}
+			replaced := false
+			for _, t := range sets {
+				if t != s && t.inv > s.ret && t.ret != 0 && t.ret < before {
+					replaced = true
+				}
+			}
+			if !replaced {
+				idx = append(idx, i)
+			}
+		}
+		return
+	}
 
 	// admissible returns the Set values that may govern an observation made between
 	// stamps s0 and s1; initial=true if "no Set yet" is admissible too.
 	admissible := func(s0, s1 uint64) (vals []time.Time, initial bool) {
-		last := -1
-		for i, s := range sets {
-			if s.ret != 0 && s.ret < s0 {
-				last = i
-			}
+		isCand := map[int]bool{}
+		for _, i := range possiblyLast(s0) {
+			vals = append(vals, sets[i].val)
+			isCand[i] = true
 		}
-		if last >= 0 {
-			vals = append(vals, sets[last].val)
-		} else {
+		if len(isCand) == 0 {
 			initial = true
 		}
 		for i, s := range sets {
-			if i == last {
+			if isCand[i] {
 				continue
 			}
 			if s.inv < s1 && (s.ret == 0 || s.ret > s0) {
@@ -174,31 +215,57 @@ func run(env *simrt.Env, sci interface{}) {
 			}
 		}))
 	}
-	hs = append(hs, env.Go("setter", func() {
-		for _, o := range sc.Ops {
-			if env.Failed() {
-				return
-			}
-			switch o.Kind {
-			case "sleep":
-				env.Sleep(time.Duration(o.DurNs))
-			default:
-				var v time.Time
-				switch o.Kind {
-				case "past":
-					v = env.Now().Add(-time.Duration(o.DurNs))
-				case "future":
-					v = env.Now().Add(time.Duration(o.DurNs))
+	setter := func(who string, ops []op) func() {
+		return func() {
+			for _, o := range ops {
+				if env.Failed() {
+					return
 				}
-				sets = append(sets, setRec{val: v, inv: env.Stamp()})
-				d.Set(v)
-				sets[len(sets)-1].ret = env.Stamp()
-			}
-			if !observe("setter") {
-				return
+				switch o.Kind {
+				case "sleep":
+					env.Sleep(time.Duration(o.DurNs))
+				default:
+					var v time.Time
+					switch o.Kind {
+					case "past":
+						v = env.Now().Add(-time.Duration(o.DurNs))
+					case "future":
+						v = env.Now().Add(time.Duration(o.DurNs))
+					case "far":
+						v = time.Date(2500, 1, 2, 3, 4, 5, 6, time.UTC)
+					case "ancient":
+						v = time.Date(1000, 1, 2, 3, 4, 5, 6, time.UTC)
+					}
+					rec := &setRec{val: v, inv: env.Stamp()}
+					sets = append(sets, rec)
+					d.Set(v)
+					rec.ret = env.Stamp()
+				}
+				if !observe(who) {
+					return
+				}
+				if sc.Strict && len(sc.Ops2) == 0 {
+					// let everything that is due happen, then Done is closed exactly if the last Set
+					// (one setter: the latest) is a non-zero time that has passed
+					env.QuiesceWithin(time.Nanosecond)
+					if len(sets) == 0 {
+						continue
+					}
+					last := sets[len(sets)-1].val
+					now := env.Now()
+					if !last.IsZero() && !last.Add(time.Microsecond).After(now) && !isClosed(d.Done()) {
+						env.Fail("C09/not-signalled-after-deadline", "%s: the system has settled at %v, the last Set (%v after start) has passed, but Done is not closed (Err=%v)", who, now.Sub(env.Start()), last.Sub(env.Start()), d.Err())
+						return
+					}
+					env.Probe("strict-check")
+				}
 			}
 		}
-	}))
+	}
+	hs = append(hs, env.Go("setter", setter("setter", sc.Ops)))
+	if len(sc.Ops2) > 0 {
+		hs = append(hs, env.Go("setter2", setter("setter 2", sc.Ops2)))
+	}
 	env.Join(hs...)
 	if env.Failed() {
 		return
@@ -208,14 +275,26 @@ func run(env *simrt.Env, sci interface{}) {
 	closed := isClosed(d.Done())
 	err := d.Err()
 	var last time.Time
-	if len(sets) > 0 {
-		last = sets[len(sets)-1].val
+	final := possiblyLast(^uint64(0))
+	allZero, allDue := true, len(final) > 0
+	for _, i := range final {
+		v := sets[i].val
+		if !v.IsZero() {
+			allZero = false
+			last = v
+		}
+		if v.IsZero() || v.After(env.Now()) {
+			allDue = false // zero, or (centuries ahead) not reached even at quiescence
+		}
 	}
-	if last.IsZero() {
+	if allZero {
 		if closed || err != nil {
 			env.Fail("C09/signalled-without-deadline", "at quiescence the last Set was zero (or none) but Done closed=%v Err=%v", closed, err)
 		}
 		return
+	}
+	if !allDue {
+		return // concurrent setters left more than one candidate, not all of them due
 	}
 	if !closed || err != context.DeadlineExceeded {
 		env.Fail("C09/not-signalled-after-deadline", "at quiescence the last Set (%v after start) has passed but Done closed=%v Err=%v", last.Sub(env.Start()), closed, err)
@@ -262,5 +341,11 @@ func shrinkSc(sci interface{}) []interface{} {
 func TestSim(t *testing.T) {
 	harn.Main(t, &harn.Spec{
 		ID: "C09", Gen: gen, New: func() interface{} { return &scenario{} }, Run: run, Shrink: shrinkSc,
+		Knobs: func(r *harn.Rng, sci interface{}, cfg *simrt.Config) {
+			if sci.(*scenario).Strict {
+				cfg.Jitter = "1ns" // the strict check compares the virtual clock with timer expiries,
+				cfg.StallP = 0     // and a stall inside Set (between computing the duration and arming) legitimately delays the timer
+			}
+		},
 	})
 }
